@@ -21,7 +21,7 @@ func init() {
 	reg(&Oblig{ID: "DM-C", Pkg: "datamatrix", Func: "VP_DM_render", Props: []string{"C02", "C11"}, Desc: "render for symbolic codewords: every module equals the ISO layout (finder L and clock track per region, Annex F placement incl. corner cases, fixed lower-right pattern); pixel colours; bounds",
 		Real: []string{"datamatrix.render", "datamatrix.newCodeLayout", "(*codeLayout).SetValues/SetSimple/Corner1..4/Set/Occupied/Merge", "(*datamatrixCode).get/set/At/Bounds"}, Stubs: []string{oracle},
 		Bound: "all codewords symbolic, all 24 sizes in both tiers", Configs: func(string, int64) []map[string]int { return one("size", rng(0, 23)...) }})
-	reg(&Oblig{ID: "DM-E", Pkg: "datamatrix", Func: "VP_DM_e2e", Props: []string{"C02", "C10", "C11", "C12", "C13"}, Desc: "Encode / EncodeWithColor end to end: error exactly beyond 1558 codewords; smallest size holding the encodation; every module equals the reference pipeline (padding, interleaved RS, placement); Content, metadata, colour scheme",
+	reg(&Oblig{ID: "DM-E", Pkg: "datamatrix", Func: "VP_DM_e2e", Props: []string{"C02", "C10", "C13"}, Desc: "Encode / EncodeWithColor end to end: error exactly beyond 1558 codewords; smallest size holding the encodation; every module equals the reference pipeline (padding, interleaved RS, placement); Content, metadata, colour scheme",
 		Real: []string{"datamatrix.Encode", "datamatrix.EncodeWithColor", "all of DM-A..C"}, Stubs: []string{oracle, rsStub, "the ASCII encodation inside this obligation is the library's own (discharged against the reference decoder by DM-A)"},
 		Bound: "n <= 3 fully symbolic bytes; class-constrained content (letters = 1 codeword/byte, high bytes = 2) at capacity and capacity+1 of sizes 10, 12, 26 (quick), of all sizes up to 52 and 144 (thorough); 1559 letters rejected",
 		Configs: func(tier string, seed int64) []map[string]int {
